@@ -199,6 +199,35 @@ def reply_races_context_end(rng, ident):
     return scn.line("scn", ident, s, extra="nt=1 family=reply-races-context-end expect=%s" % ",".join(exp))
 
 
+def long_history(rng, ident, n):
+    """a long history on one connection - n requests of which many are cancelled by the peer while their handler runs, some
+    abandoned notifications - leaves nothing behind: the requests that follow are each invoked once and answered"""
+    s = []
+    hid = 0
+    for i in range(n):
+        r = rng.below(8)
+        if r == 0:
+            s += [scn.feed_notify(2000 + i), "waithandlers/%d" % (hid + 1), scn.finish(hid, 2000 + i, nowait=True)]
+        else:
+            s += [scn.feed_call(1000 + i, 2000 + i), "waithandlers/%d" % (hid + 1)]
+            if r != 1:
+                s.append(scn.feed_cancel(1000 + i))
+            s.append(scn.finish(hid, 2000 + i, nowait=True))
+        hid += 1
+    s += ["waitev/hret~/%d" % hid, "settle"]
+    inv, rep = [], []
+    for j in range(3):
+        nonce = 9000 + j
+        if j == 1:
+            s += [scn.feed_notify(nonce), "waithandlers/%d" % (hid + 1), scn.finish(hid, nonce), "settle"]
+        else:
+            s += [scn.feed_call(5000 + j, nonce), "waithandlers/%d" % (hid + 1), scn.finish(hid, nonce), "settle"]
+            rep.append("%d~%d" % (5000 + j, nonce))
+        inv.append("%d~%s~-" % (nonce, T(scn.arg(nonce))))
+        hid += 1
+    return scn.line("scn", ident, s, extra="nt=1 family=long-history expectinv=%s expectreply=%s" % ("|".join(inv), ",".join(rep)))
+
+
 def explore(ctx):
     rng, tier = ctx["rng"], ctx["tier"]
     if ctx.get("replay"):
@@ -228,6 +257,8 @@ def explore(ctx):
             lines.append(sibling_tags(rng, "t%d" % n)); n += 1
         for _ in range({"quick": 16, "thorough": 200, "search": 40}[tier]):
             lines.append(reply_races_context_end(rng, "x%d" % n)); n += 1
+        for nn in {"quick": [380], "thorough": [380, 700, 1400], "search": [380]}[tier]:
+            lines.append(long_history(rng, "L%d" % n, nn)); n += 1
         for _ in range(2):
             lines.append(oversize_reply(rng, "o%d" % n)); n += 1
         for _ in range(6):
